@@ -8,7 +8,7 @@
     key named <kid> <payload|unreadable>   file <dir>/<kid>
     cfg <TokenMaxAge> <SEC_TOKEN_MAX_AGE seconds|-> <TrustDomain>
     seg h <segment> b64|json|ok a|ok n|ok s <kid>
-    seg p <segment> b64|json|ok <exp> <iat> <sub>      exp,iat: a | b | n:<int>   sub: a | n | s:<payload>
+    seg p <segment> b64|json|ok <exp> <iat> <sub> <nbf>   exp,iat,nbf: a | b | n:<int>   sub: a | n | s:<payload>
     seg s <segment> b64|ok <sig-term>
     mac <bytes> <mac-term>
   terms:  sig  S.<key>.<tok> | R.<bytes>      mkey  D.<sig>.<tok> | N      mac  H.<mkey>.<msg> | R.<bytes>
@@ -154,11 +154,12 @@ def step (st : St) (toks : List String) : St × String :=
       let v : Option (Seg Claims) := match rest with
         | ["b64"] => some .b64err
         | ["json"] => some .jsonerr
-        | ["ok", e, i, s] => do
+        | ["ok", e, i, s, n] => do
             let e ← parseNum e
             let i ← parseNum i
             let s ← parseSub s
-            pure (.ok { exp := e, iat := i, sub := s })
+            let n ← parseNum n
+            pure (.ok { exp := e, iat := i, sub := s, nbf := n })
         | _ => none
       match v with
       | some v => ({ st with clT := (b, v) :: st.clT }, "ok")
